@@ -60,7 +60,7 @@ PAD_SMALL = [(0, 6), (1, 6), (2, 4), (3, 3), (7, 2), (30, 2), (120, 2), (254, 1)
 PAD_BIG = [(2000, 3), (9000, 2), (32700, 2), (32766, 1), (32767, 1), (32768, 1), (33000, 1), (50000, 1), (63000, 1)]
 FILL = [(0, 6), (1, 5), (2, 4), (5, 3), (20, 2), (42, 1), (43, 1), (60, 1), (200, 1)]
 FAILS = [("error", 5), ("div", 5), ("index", 3), ("longexpr", 3), ("longarr", 2), ("longwrap", 1), ("multi", 3), ("funlit", 3),
-         ("funlit2", 2), ("funlitml", 2), ("macrodef", 2), ("macrouse", 2), ("strml", 2)]
+         ("funlit2", 2), ("funlitml", 2), ("macrodef", 2), ("macrouse", 2), ("strml", 2), ("ehfail", 2)]
 CALLS = [("ret", 8), ("assign", 3), ("funlit", 3), ("funlit2", 2), ("funlitml", 2), ("catch", 2), ("multi", 2)]
 CALLS_PLAIN = [("ret", 8), ("assign", 3), ("catch", 2), ("multi", 2)]
 # calls of a function of the same object that do not go through a local call instruction: apply_low (call_other,
@@ -218,6 +218,10 @@ class Gen:
         if kind == "error":
             src.text('  error("boom");\n')
             err = "boom"
+        elif kind == "ehfail":
+            # the master's error_handler logs this error and then fails itself (error inside the mudlib error handler)
+            src.text('  error("c18_eh_fail");\n')
+            err = "c18_eh_fail"
         elif kind == "div":
             src.text("  x_ = 10 / k;\n")
         elif kind == "index":
@@ -433,7 +437,9 @@ class Gen:
             rep = 2
         trig = {"apply": ["apply o1 go", exp] * rep,
                 "reset": ["vapply o1 arm 2"] + ["reset o1", exp] * rep,
-                "hb": ["vapply o1 arm 3", "tick 1", exp] * rep,
+                # one more tick without arming again: an uncaught error switched the heart beat off (no further report),
+                # a caught one did not (the same error is reported again)
+                "hb": ["vapply o1 arm 3", "tick 1", exp] * rep + (["tick 1", exp] if caught else ["tick 1"]),
                 "callout": ["vapply o1 arm 4", "tick 2", exp, exp],
                 "clone": ["clone o5 %s/m" % d, exp] * rep}[via]
         lines = [s.cmd() for s in allfiles]
